@@ -49,143 +49,7 @@ func checkC18(p *Prog, r *Report) {
 		r.Fail(kp("LIN", "compkey#anchor"), "anchor", compkeyPkg, "package not loaded")
 		return
 	}
-	// ---- D1: encoder ---------------------------------------------------------------------------
-	nConv := 0
-	var encFn *ssa.Function
-	for _, fn := range p.ModFuncs {
-		if pkgPathOf(fn) != Rel(compkeyPkg) {
-			continue
-		}
-		o := NewOrigin(p, fn)
-		fa := NewFacts(p, fn, o)
-		for _, b := range fn.Blocks {
-			for _, in := range b.Instrs {
-				cv, ok := in.(*ssa.Convert)
-				if !ok {
-					continue
-				}
-				to, ok1 := cv.Type().Underlying().(*types.Basic)
-				from, ok2 := cv.X.Type().Underlying().(*types.Basic)
-				if !ok1 || !ok2 || to.Kind() != types.Uint8 || from.Info()&types.IsInteger == 0 || from.Kind() == types.Uint8 {
-					continue
-				}
-				nConv++
-				encFn = fn
-				xt := o.Of(cv.X)
-				w, okG := fa.DominatingFact(cv, false, func(t *Term) bool {
-					// lt(c, X) with c <= 255  must be false
-					if t.Op == "lt" && t.Args[0].Op == "const" && t.Args[1].Eq(xt) {
-						var c int64
-						fmt.Sscan(t.Args[0].Name, &c)
-						return c <= 255
-					}
-					return false
-				})
-				if !okG {
-					w, okG = fa.DominatingFact(cv, true, func(t *Term) bool {
-						if t.Op == "lt" && t.Args[1].Op == "const" && t.Args[0].Eq(xt) {
-							var c int64
-							fmt.Sscan(t.Args[1].Name, &c)
-							return c <= 256
-						}
-						return false
-					})
-				}
-				if !okG {
-					// the bound was established for every element by an earlier loop of this function over the same slice
-					if lc, ok := cv.X.(*ssa.Call); ok && len(lc.Call.Args) == 1 {
-						if u, ok := lc.Call.Args[0].(*ssa.UnOp); ok {
-							if ia, ok := u.X.(*ssa.IndexAddr); ok {
-								if c, ok := earlierBoundLoop(fn, cv, ia.X); ok && c <= 255 {
-									okG, w = true, fmt.Sprintf("an earlier loop over the same slice returns an error for any element with len > %d, and dominates this loop", c)
-								}
-							}
-						}
-					}
-				}
-				if !okG {
-					// the bound was established for every element by a first pass over the same slice (an extracted size/bound helper)
-					if lc, ok := cv.X.(*ssa.Call); ok && len(lc.Call.Args) == 1 {
-						if u, ok := lc.Call.Args[0].(*ssa.UnOp); ok {
-							if ia, ok := u.X.(*ssa.IndexAddr); ok {
-								if sp, call := sizePassBefore(fn, cv, ia.X); sp != nil && sp.Bound <= 255 && sp.Bound >= 0 {
-									okG, w = true, fmt.Sprintf("%s returned a nil error for the same slice: every element has len <= %d", FuncName(call.Call.StaticCallee()), sp.Bound)
-								}
-							}
-						}
-					}
-				}
-				if !okG {
-					// the values are a parameter of an unexported writer: the bound is a precondition, established at every call site by
-					// a first pass over the same slice (encodedSize(values) succeeded before writeValues(buf, values) is called)
-					if sp, callers := callerSizePass(p, fn, cv); sp != nil && sp.Bound <= 255 && sp.Bound >= 0 {
-						okG, w = true, fmt.Sprintf("precondition discharged at every call site (%s): a size/bound pass over the same slice returned a nil error, every element has len <= %d", callers, sp.Bound)
-					}
-				}
-				r.Check(okG, kp("CONV", FuncName(fn)+"#uint8(len)≤255"), "conversion guard: a length is narrowed to one byte only under a dominating length <= 255 fact (longer components are rejected, never truncated)", p.Pos(cv.Pos()), w,
-					"the narrowing conversion "+cv.String()+" is not dominated by a <=255 bound: a 256-byte component is silently encoded with length 0")
-				// the rejecting branch returns an error
-				checkEncoderShape(p, r, kp, fn, cv)
-			}
-		}
-	}
-	r.Floor("narrowing-conversions-in-compkey", nConv, 1)
-	// Encode / PartialEncode wrappers
-	// the encoder as the wrappers see it: the function holding the conversion, or an unexported function of the package that hands
-	// its own first parameter on to it (encode → writeValues)
-	encChain := map[*ssa.Function]bool{}
-	if encFn != nil {
-		encChain[encFn] = true
-		for _, g := range p.ModFuncs {
-			if pkgPathOf(g) != Rel(compkeyPkg) || g == encFn || len(g.Params) == 0 || token.IsExported(g.Name()) {
-				continue
-			}
-			for _, cs := range callSites(g) {
-				if cs.Callee != encFn {
-					continue
-				}
-				for _, a := range cs.Instr.Common().Args {
-					if a == ssa.Value(g.Params[0]) {
-						encChain[g] = true
-					}
-				}
-			}
-		}
-	}
-	if encFn != nil {
-		for _, name := range []string{"Encode", "PartialEncode"} {
-			fn := sp.Func(name)
-			if fn == nil {
-				r.Fail(kp("ORIGIN", "compkey."+name+"#anchor"), "anchor", compkeyPkg, name+" not found")
-				continue
-			}
-			o := NewOrigin(p, fn)
-			fa := NewFacts(p, fn, o)
-			found := false
-			for _, cs := range callSites(fn) {
-				if cs.Callee == nil || !encChain[cs.Callee] {
-					continue
-				}
-				found = true
-				c := cs.Instr.(*ssa.Call)
-				arg := o.Of(c.Call.Args[0])
-				bs := func(t *Term) bool { return strings.HasSuffix(t.Name, "CompositeKey.ByteSlices") && t.Op == "call" }
-				if name == "Encode" {
-					r.Check(bs(arg), kp("ORIGIN", "compkey.Encode#encodes-all-components"), "Encode encodes exactly key.ByteSlices()", p.Pos(c.Pos()), arg.String(), arg.String())
-				} else {
-					ok := arg.Op == "slice" && bs(arg.Args[0]) && arg.Args[1].Name == "_" && arg.Args[2].Op == "param"
-					r.Check(ok, kp("ORIGIN", "compkey.PartialEncode#encodes-first-n"), "PartialEncode encodes exactly the first numValues components", p.Pos(c.Pos()), arg.String(), arg.String())
-					_, okG := fa.DominatingFact(c, false, func(t *Term) bool {
-						return t.Op == "lt" && t.Args[0].IsCall("builtin:len") && bs(t.Args[0].Args[0]) && t.Args[1].Op == "param"
-					})
-					r.Check(okG, kp("GUARD", "compkey.PartialEncode#numValues≤len"), "numValues is bounded by the number of components", p.Pos(c.Pos()), "len(values) >= numValues dominates", "no bound check on numValues")
-				}
-			}
-			if !found {
-				r.Fail(kp("ORIGIN", "compkey."+name+"#calls-encode"), name+" delegates to the encoder", p.FnPos(fn), "no call to the encoder found")
-			}
-		}
-	}
+	checkCompkeyEncoder(p, r, kp, sp)
 	// ---- D2: decoder ---------------------------------------------------------------------------
 	if dec := sp.Func("Decode"); dec != nil {
 		checkDecoderShape(p, r, kp, dec)
@@ -1040,7 +904,7 @@ func sizePassOf(fn *ssa.Function) *sizePass {
 			return false
 		}
 		ia, ok := u.X.(*ssa.IndexAddr)
-		return ok && ia.X == ssa.Value(prm)
+		return ok && ia.X == ssa.Value(prm) && isLoopIndexValue(ia.Index)
 	}
 	// the bound test inside the loop with a failing branch
 	var test *ssa.BasicBlock
@@ -1263,7 +1127,7 @@ func boundPassOf(fn *ssa.Function) *sizePass {
 			continue
 		}
 		ia, ok := u.X.(*ssa.IndexAddr)
-		if !ok || ia.X != ssa.Value(prm) {
+		if !ok || ia.X != ssa.Value(prm) || !isLoopIndexValue(ia.Index) {
 			continue
 		}
 		c, ok := bo.Y.(*ssa.Const)
@@ -1386,8 +1250,8 @@ func earlierBoundLoop(fn *ssa.Function, at ssa.Instruction, slice ssa.Value) (in
 			continue
 		}
 		ia, ok := u.X.(*ssa.IndexAddr)
-		if !ok || ia.X != slice {
-			continue
+		if !ok || ia.X != slice || !isLoopIndexValue(ia.Index) {
+			continue // the element tested must be the one of the current iteration, not a fixed one
 		}
 		c, ok := bo.Y.(*ssa.Const)
 		if !ok {
@@ -1563,4 +1427,161 @@ func checkSeparatorOutsideComponents(p *Prog, r *Report, kp func(string, string)
 	bech := "qpzry9x8gf2tvdw0s3jn54khce6mua7l1" + strings.Trim(hrp, `"`)
 	r.Check(!strings.ContainsRune(bech, rune(b)) && !(b >= '0' && b <= '9'), kp("CONST", "separator∉bech32∪digits"), "the separator is outside the bech32 alphabet, the address prefix and the decimal digits", aolTypesPkg,
 		fmt.Sprintf("%q ∉ {%s} ∪ digits", sep, bech), fmt.Sprintf("%q can occur inside an address or an offset string", sep))
+}
+
+// isLoopIndexValue: v is the running index of a loop (the header's phi, or that phi plus one — the range form), not a constant.
+func isLoopIndexValue(v ssa.Value) bool {
+	switch x := v.(type) {
+	case *ssa.Phi:
+		return inCycle(x.Block())
+	case *ssa.BinOp:
+		if ph, ok := x.X.(*ssa.Phi); ok && x.Op == token.ADD && inCycle(ph.Block()) {
+			if c, isC := x.Y.(*ssa.Const); isC && c.Value != nil && c.Int64() == 1 {
+				return true
+			}
+		}
+	}
+	return false
+}
+
+// checkCompkeyEncoder (C18-D1, shared with C13: a listing is exact only if a stored key's prefix is the encoding of its parent's
+// components — a length byte that wraps puts an entry under another parent's prefix).
+func checkCompkeyEncoder(p *Prog, r *Report, kp func(string, string) string, sp *ssa.Package) {
+	// ---- D1: encoder ---------------------------------------------------------------------------
+	nConv := 0
+	var encFn *ssa.Function
+	for _, fn := range p.ModFuncs {
+		if pkgPathOf(fn) != Rel(compkeyPkg) {
+			continue
+		}
+		o := NewOrigin(p, fn)
+		fa := NewFacts(p, fn, o)
+		for _, b := range fn.Blocks {
+			for _, in := range b.Instrs {
+				cv, ok := in.(*ssa.Convert)
+				if !ok {
+					continue
+				}
+				to, ok1 := cv.Type().Underlying().(*types.Basic)
+				from, ok2 := cv.X.Type().Underlying().(*types.Basic)
+				if !ok1 || !ok2 || to.Kind() != types.Uint8 || from.Info()&types.IsInteger == 0 || from.Kind() == types.Uint8 {
+					continue
+				}
+				nConv++
+				encFn = fn
+				xt := o.Of(cv.X)
+				w, okG := fa.DominatingFact(cv, false, func(t *Term) bool {
+					// lt(c, X) with c <= 255  must be false
+					if t.Op == "lt" && t.Args[0].Op == "const" && t.Args[1].Eq(xt) {
+						var c int64
+						fmt.Sscan(t.Args[0].Name, &c)
+						return c <= 255
+					}
+					return false
+				})
+				if !okG {
+					w, okG = fa.DominatingFact(cv, true, func(t *Term) bool {
+						if t.Op == "lt" && t.Args[1].Op == "const" && t.Args[0].Eq(xt) {
+							var c int64
+							fmt.Sscan(t.Args[1].Name, &c)
+							return c <= 256
+						}
+						return false
+					})
+				}
+				if !okG {
+					// the bound was established for every element by an earlier loop of this function over the same slice
+					if lc, ok := cv.X.(*ssa.Call); ok && len(lc.Call.Args) == 1 {
+						if u, ok := lc.Call.Args[0].(*ssa.UnOp); ok {
+							if ia, ok := u.X.(*ssa.IndexAddr); ok {
+								if c, ok := earlierBoundLoop(fn, cv, ia.X); ok && c <= 255 {
+									okG, w = true, fmt.Sprintf("an earlier loop over the same slice returns an error for any element with len > %d, and dominates this loop", c)
+								}
+							}
+						}
+					}
+				}
+				if !okG {
+					// the bound was established for every element by a first pass over the same slice (an extracted size/bound helper)
+					if lc, ok := cv.X.(*ssa.Call); ok && len(lc.Call.Args) == 1 {
+						if u, ok := lc.Call.Args[0].(*ssa.UnOp); ok {
+							if ia, ok := u.X.(*ssa.IndexAddr); ok {
+								if sp, call := sizePassBefore(fn, cv, ia.X); sp != nil && sp.Bound <= 255 && sp.Bound >= 0 {
+									okG, w = true, fmt.Sprintf("%s returned a nil error for the same slice: every element has len <= %d", FuncName(call.Call.StaticCallee()), sp.Bound)
+								}
+							}
+						}
+					}
+				}
+				if !okG {
+					// the values are a parameter of an unexported writer: the bound is a precondition, established at every call site by
+					// a first pass over the same slice (encodedSize(values) succeeded before writeValues(buf, values) is called)
+					if sp, callers := callerSizePass(p, fn, cv); sp != nil && sp.Bound <= 255 && sp.Bound >= 0 {
+						okG, w = true, fmt.Sprintf("precondition discharged at every call site (%s): a size/bound pass over the same slice returned a nil error, every element has len <= %d", callers, sp.Bound)
+					}
+				}
+				r.Check(okG, kp("CONV", FuncName(fn)+"#uint8(len)≤255"), "conversion guard: a length is narrowed to one byte only under a dominating length <= 255 fact (longer components are rejected, never truncated)", p.Pos(cv.Pos()), w,
+					"the narrowing conversion "+cv.String()+" is not dominated by a <=255 bound: a 256-byte component is silently encoded with length 0")
+				// the rejecting branch returns an error
+				checkEncoderShape(p, r, kp, fn, cv)
+			}
+		}
+	}
+	r.Floor("narrowing-conversions-in-compkey", nConv, 1)
+	// Encode / PartialEncode wrappers
+	// the encoder as the wrappers see it: the function holding the conversion, or an unexported function of the package that hands
+	// its own first parameter on to it (encode → writeValues)
+	encChain := map[*ssa.Function]bool{}
+	if encFn != nil {
+		encChain[encFn] = true
+		for _, g := range p.ModFuncs {
+			if pkgPathOf(g) != Rel(compkeyPkg) || g == encFn || len(g.Params) == 0 || token.IsExported(g.Name()) {
+				continue
+			}
+			for _, cs := range callSites(g) {
+				if cs.Callee != encFn {
+					continue
+				}
+				for _, a := range cs.Instr.Common().Args {
+					if a == ssa.Value(g.Params[0]) {
+						encChain[g] = true
+					}
+				}
+			}
+		}
+	}
+	if encFn != nil {
+		for _, name := range []string{"Encode", "PartialEncode"} {
+			fn := sp.Func(name)
+			if fn == nil {
+				r.Fail(kp("ORIGIN", "compkey."+name+"#anchor"), "anchor", compkeyPkg, name+" not found")
+				continue
+			}
+			o := NewOrigin(p, fn)
+			fa := NewFacts(p, fn, o)
+			found := false
+			for _, cs := range callSites(fn) {
+				if cs.Callee == nil || !encChain[cs.Callee] {
+					continue
+				}
+				found = true
+				c := cs.Instr.(*ssa.Call)
+				arg := o.Of(c.Call.Args[0])
+				bs := func(t *Term) bool { return strings.HasSuffix(t.Name, "CompositeKey.ByteSlices") && t.Op == "call" }
+				if name == "Encode" {
+					r.Check(bs(arg), kp("ORIGIN", "compkey.Encode#encodes-all-components"), "Encode encodes exactly key.ByteSlices()", p.Pos(c.Pos()), arg.String(), arg.String())
+				} else {
+					ok := arg.Op == "slice" && bs(arg.Args[0]) && arg.Args[1].Name == "_" && arg.Args[2].Op == "param"
+					r.Check(ok, kp("ORIGIN", "compkey.PartialEncode#encodes-first-n"), "PartialEncode encodes exactly the first numValues components", p.Pos(c.Pos()), arg.String(), arg.String())
+					_, okG := fa.DominatingFact(c, false, func(t *Term) bool {
+						return t.Op == "lt" && t.Args[0].IsCall("builtin:len") && bs(t.Args[0].Args[0]) && t.Args[1].Op == "param"
+					})
+					r.Check(okG, kp("GUARD", "compkey.PartialEncode#numValues≤len"), "numValues is bounded by the number of components", p.Pos(c.Pos()), "len(values) >= numValues dominates", "no bound check on numValues")
+				}
+			}
+			if !found {
+				r.Fail(kp("ORIGIN", "compkey."+name+"#calls-encode"), name+" delegates to the encoder", p.FnPos(fn), "no call to the encoder found")
+			}
+		}
+	}
 }
